@@ -187,7 +187,7 @@ def generate(seed, tier):
     n_long = 60 if thorough else 14
     for i in range(n_long):
         n = rng.randint(1, 5)
-        T = rng.choice([65, 100, 257, 500, 1000, 2000]) if i % 2 else rng.randint(13, 64)
+        T = rng.choice([65, 100, 257, 500, 1000, 2000] + ([5000] if thorough else [])) if i % 2 else rng.randint(13, 64)
         kind = rng.choice(["pos", "sparse", "any"])
         P, F, E = tables(rng, n, T, kind)
         ops = stage(n, P, F, E)
@@ -574,7 +574,7 @@ def generate(seed, tier):
     n_tm = 240 if thorough else 60
     for i in range(n_tm):
         kind = "auto" if i % 2 == 0 else "full"
-        n = rng.choice([1, 2, 2, 3, 3, 4, 5]) if kind == "auto" else rng.choice([1, 2, 2, 3, 3, 4])
+        n = rng.choice([1, 2, 2, 3, 3, 4, 5])
         ops = ["tm a %s %d" % (kind, n), "tm c %s %d" % (kind, rng.randint(1, 4))]
 
         def query(o):
